@@ -50,7 +50,7 @@ class C03(Prop):
         "blank mnemonics only on items whose unit, value and description contain no period",
         "~Other lines carry no leading/trailing blanks and the text does not end in a newline",
     ]
-    quick = {"runs": 5000, "wall": 40}
+    quick = {"runs": 30000, "wall": 60}
     thorough = {"runs": 300000, "wall": 900}
 
     def gen_items(self, g, n, curves=False, allow_dup=True):
